@@ -292,7 +292,7 @@ func execute(t *testing.T, c Case) (kind, detail string) {
 		if gone {
 			// the upstream that carried the session does not come back: the next admissible one in
 			// the list has to take over
-			chosen.w.Listener.Close()
+			chosen.w.StopServer()
 			next := -1
 			for i := want + 1; i < len(members); i++ {
 				if admits(members[i].kind, c.MustSecure) {
